@@ -112,6 +112,9 @@ def branch_of(exp):
 
 
 # ------------------------------------------------------------------ part A: independent runs, many per session
+_sess_counter = [0]
+
+
 def check_cases(ck, cases, faulty, tag):
     """cases: list of dicts {cfg: {N, retries, warmup, ignore_timeouts}, outcomes: [...]}; all run in ONE
     session as independent runs (distinct executables), batch scheduler."""
@@ -155,9 +158,15 @@ def check_cases(ck, cases, faulty, tag):
                 t = o.get('marker_text') or ''
                 ck.count('marker:%s' % ('line start' if t.startswith(('Error', 'FAILED', 'Segmentation')) else 'inside a line'))
     scn = {'runs': [dict(c['cfg'], exe=i, **c['levels']) for i, c in enumerate(cases)]}
+    # every third session: the runs belong to two experiments that share the data file (experiment `all`)
+    _sess_counter[0] += 1
+    if _sess_counter[0] % 3 == 0 or any(c.get('two_experiments') for c in cases):
+        scn['two_experiments'] = True
+        ck.count('session:runs shared by two experiments with one data file')
     sess = {'sched': 'batch', 'faulty': faulty, 'scripts': [c['outcomes'] for c in cases]}
     wd = _mkwd(ck)
     obs = ds.run_session(wd, scn, sess)
+    obs['two_experiments'] = bool(scn.get('two_experiments'))
     ck.impl_traces += 1
     # the scripted process layer answers starts beyond the script with DEFAULT_FAIL: the model gets the same stream
     ops = [dict({'op': 'c04.trace', 'faulty': faulty,
@@ -188,7 +197,8 @@ def impl_view(obs, i):
 
 def one_case(ck, c, faulty, i, obs, ans, tag):
     cfg = c['cfg']
-    inp = {'kind': 'run', 'cfg': cfg, 'faulty': faulty, 'outcomes': c['outcomes'], 'levels': c.get('levels') or {}}
+    inp = {'kind': 'run', 'cfg': cfg, 'faulty': faulty, 'outcomes': c['outcomes'], 'levels': c.get('levels') or {},
+           'two_experiments': bool(obs.get('two_experiments'))}
     starts, rows, fin = impl_view(obs, i)
     exp = prop_expect(cfg, faulty, c['outcomes'])
     ck.count('stop:' + str(exp['reason']))
@@ -548,12 +558,15 @@ def load_corpus(ck):
 
 
 def run_input(ck, inp, tag):
-    if inp.get('kind') == 'session':
+    if inp.get('kind') == 'cli-bytes':
+        cli_bytes_case(ck, inp, tag)
+    elif inp.get('kind') == 'session':
         check_shared(ck, inp['scn'], inp['sess'], tag)
     elif inp.get('kind') == 'runs':
         check_cases(ck, inp['cases'], inp.get('faulty', False), tag)
     else:
-        check_cases(ck, [{'cfg': inp['cfg'], 'outcomes': inp['outcomes'], 'levels': inp.get('levels') or {}}],
+        check_cases(ck, [{'cfg': inp['cfg'], 'outcomes': inp['outcomes'], 'levels': inp.get('levels') or {},
+                          'two_experiments': inp.get('two_experiments')}],
                     inp.get('faulty', False), tag)
 
 
@@ -633,8 +646,52 @@ def run(ck):
         scn, sess = shared_scenario(rng)
         check_shared(ck, scn, sess, 'shared')
     queue_of(ck).flush()
+    cli_bytes_slice(ck)
     if ck.disagreements:
         search_neighbourhood(ck)
+
+
+def cli_bytes_case(ck, inp, tag):
+    """the real CLI in a child process, the real UI on a strict UTF-8 stdout, a real harness printing raw bytes"""
+    import drive_cli_a as cli
+    wd = _mkwd(ck)
+    cfg = inp['cfg']
+    plan = [(o['rc'], bytes(o.get('bytes') or []), o.get('dps', 0)) for o in inp['outcomes']]
+    cli.write_harness(wd, {'B0': plan, 'B1': [(0, b'', 1)] * 3})
+    conf = cli.base_config(wd, {'B0': {'N': cfg['N'], 'retries': cfg['retries'], 'exe': 0}, 'B1': {'N': 2, 'retries': 0, 'exe': 0}})
+    obs = cli.run_cli(wd, conf)
+    ck.impl_traces += 1
+    ck.count('real-cli:bytes in harness output')
+    outcomes = [{'rc': o['rc'], 'dps': o.get('dps', 0)} for o in inp['outcomes']]
+    exp = prop_expect({'N': cfg['N'], 'retries': cfg['retries'], 'warmup': None, 'ignore_timeouts': False}, False, outcomes)
+    got = [int(a[1]) for a in obs['starts'] if a[0] == 'B0']
+    got1 = [int(a[1]) for a in obs['starts'] if a[0] == 'B1']
+    ck.case(nontrivial_key=(tag, str(inp)), sample={'real_cli': True, 'starts': got, 'exit': obs['exit']})
+    detail = {'exit': obs['exit'], 'starts_B0': got, 'expected_B0': exp['starts'], 'starts_B1': got1,
+              'stderr': obs['stderr_tail'][-300:]}
+    if obs['traceback'] or obs['exit'] not in (0, 1):
+        ck.oracle_fail('session_ends_cleanly', inp, detail,
+                       signature={'real_cli': True, 'exception': 'UnicodeEncodeError' if 'UnicodeEncodeError' in obs['stderr_tail'] else 'other'})
+    elif got != exp['starts'] or got1 != [1, 2]:
+        ck.oracle_fail('retry_rule', inp, detail, signature={'real_cli': True, 'what': 'starts'})
+    else:
+        invs = sorted(set(r[1] for r in obs['rows'] if r[0] == 'B0' and r[3] == 'total'))
+        if invs != list(range(1, exp['recorded'] + 1)):
+            ck.oracle_fail('records_numbering', inp, dict(detail, recorded=invs), signature={'real_cli': True})
+
+
+def cli_bytes_slice(ck):
+    import drive_cli_a as cli
+    rng = ck.rng
+    for i in range(3 if ck.tier == 'quick' else 20):
+        texts = rng.sample(cli.BYTE_TEXTS[:3], 2) + [rng.choice(cli.BYTE_TEXTS)]
+        n = rng.randint(1, 2)
+        rest = [{'rc': 0, 'dps': 1, 'bytes': list(texts[2])}, {'rc': rng.choice([0, 3]), 'dps': 1, 'bytes': list(texts[1])},
+                {'rc': 0, 'dps': 1}, {'rc': 0, 'dps': 1}]
+        rng.shuffle(rest)
+        # the first process fails and prints bytes that are not UTF-8: its output is shown, the run is retried
+        outcomes = [{'rc': rng.choice([1, 2, -9 % 256]), 'dps': rng.choice([0, 1]), 'bytes': list(texts[0])}] + rest
+        cli_bytes_case(ck, {'kind': 'cli-bytes', 'cfg': {'N': n, 'retries': rng.choice([1, 2, 3])}, 'outcomes': outcomes}, 'cli')
 
 
 def replay(ck, data):
